@@ -1,10 +1,11 @@
 #!/usr/bin/env python3
 """rerun.py: re-run the quick checks against every kept property-preserving change and refresh meta.json"""
-import os, json, subprocess, re
+import os, json, subprocess, re, sys
 base = '/verif/preserving'
+prefs = sys.argv[1:] or ['']
 for name in sorted(os.listdir(base)):
     d = f'{base}/{name}'
-    if not (os.path.isdir(d) and os.path.isfile(f'{d}/patch.diff')):
+    if not (os.path.isdir(d) and os.path.isfile(f'{d}/patch.diff') and any(name.startswith(p) for p in prefs)):
         continue
     meta = json.load(open(f'{d}/meta.json'))
     checks = list(meta.get('checks_run', {}).keys()) or [name.split('-')[0]]
